@@ -7,8 +7,11 @@ pub mod c02;
 pub mod c04;
 pub mod c05;
 pub mod c06;
+pub mod c07;
 pub mod c09;
 pub mod c10;
+#[cfg(any(feature = "rocksdb", feature = "fjall"))]
+pub mod c11;
 pub mod c12;
 pub mod c13;
 pub mod c14;
